@@ -35,6 +35,11 @@ type fakeRW struct {
 	holdFail bool
 	failCh   chan struct{}
 	failed   bool
+	// deadlineErr: SetWriteDeadline fails (the connection was torn down under the handler): the first call — the one
+	// SubscribeHandler makes right after registration — returns at once, a later one (made before a write) parks like
+	// a failing write
+	deadlineErr bool
+	dlCalls     int
 }
 
 // failParked reports whether a failing write is parked, waiting for release.
@@ -114,9 +119,24 @@ func (w *fakeRW) started() bool {
 
 func (w *fakeRW) Flush() {}
 
+var errConnClosed = errors.New("use of closed network connection (injected)")
+
 func (w *fakeRW) SetWriteDeadline(t time.Time) error {
 	w.mu.Lock()
 	defer w.mu.Unlock()
+	if w.deadlineErr {
+		w.dlCalls++
+		if w.dlCalls > 1 && w.holdFail && !w.failed {
+			w.failed = true
+			ch := make(chan struct{})
+			w.failCh = ch
+			w.mu.Unlock()
+			<-ch
+			w.mu.Lock()
+		}
+
+		return errConnClosed
+	}
 	w.deadline = t
 
 	return nil
